@@ -311,6 +311,7 @@ class TokenizerState:
         self.pos = 0
         self.max = 0
         self.end_progs: list[EndProg] = []
+        self.line_open = False  # a significant token was emitted since the last NEWLINE
 
     def move_next_line(self, readline: Callable[[], str]) -> None:
         self.last_line = self.line
@@ -496,7 +497,7 @@ def next_psuedo_matches(state: TokenizerState) -> TokenInfo | None:
     elif match.lastgroup == "Number" or (token[0] == "." and token not in (".", "...")):
         token_type = Token.NUMBER
     elif match.lastgroup == "NL":
-        token_type = Token.NL if state.parenlev > 0 else Token.NEWLINE
+        token_type = Token.NL if state.parenlev > 0 or not state.line_open else Token.NEWLINE
     elif match.lastgroup == "Special":
         if token[-1] in "([{":
             state.parenlev += 1
@@ -521,8 +522,7 @@ def next_psuedo_matches(state: TokenizerState) -> TokenInfo | None:
 
 def next_end_tokens(state: TokenizerState) -> Iterator[TokenInfo]:
     # Add an implicit NEWLINE if the input doesn't end in one
-    last = state.last_line.strip()
-    if last and state.last_line[-1] != "\n" and not last.startswith("#"):
+    if state.line_open:
         yield TokenInfo(
             Token.NEWLINE,
             "",
@@ -615,9 +615,21 @@ def handle_end_progs(state: TokenizerState) -> Iterator[TokenInfo]:
         state.pos = state.max
 
 
+_INSIGNIFICANT = {Token.WS, Token.COMMENT, Token.NL, Token.INDENT, Token.DEDENT, Token.ENDMARKER}
+
+
 def _tokenize(readline: Callable[[], str]) -> Iterator[TokenInfo]:
     state = TokenizerState()
+    for token in _scan(state, readline):
+        # track whether a logical line is open: decides NL vs NEWLINE and the implicit NEWLINE at end of input
+        if token.type == Token.NEWLINE:
+            state.line_open = False
+        elif token.type not in _INSIGNIFICANT and not (token.type == Token.ERRORTOKEN and token.string.isspace()):
+            state.line_open = True
+        yield token
 
+
+def _scan(state: TokenizerState, readline: Callable[[], str]) -> Iterator[TokenInfo]:
     while True:  # loop over lines in stream
         state.move_next_line(readline)
 
